@@ -174,6 +174,24 @@ for t in ("i32", "u8", "f32", "f64"):
 H("c17_q_resolve_time", "C17", "c17::resolve_time", "NumericValue<uom Time(f32)>: Value/MAX/MIN against quantity bounds",
   "all f32 values", cap_s=200, mem_gb=2)
 
+# ---------------------------------------------------------------------------- C20
+ENUMS = {"E1": "BINary|REAL|ASCii1|ASCii2|L125", "E2": "VOLTage|CURRent", "E3": "ALPHa(u8)|BETA3(u16)|GAMMa",
+         "E4": "CHANnel1|CHANnel2|CHANnel10|X|MAXimum|OFF"}
+for e, d in ENUMS.items():
+    for L, tier in ((6, "q"), (12, "t")):
+        H(f"c20_{tier}_select_{e.lower()}_{L}", "C20", f"c20::select::<c20::{e}, {L}, _>",
+          f"derive(ScpiEnum) on {{{d}}}: from_mnemonic / TryFrom<Token> of every character datum of 0..{L} bytes == first "
+          f"variant whose mnemonic reference-matches, else -224", f"character data <= {L} bytes over [A-Za-z0-9_]",
+          cap_s=(600 if L == 6 else 1800), mem_gb=4, unwind=L + 3, sample=(e == "E1" and L == 6))
+    H(f"c20_q_other_{e.lower()}", "C20", f"c20::otherkinds::<c20::{e}, _>", f"{{{d}}}: every non-character element -> -104",
+      "6 token kinds, symbolic payloads", cap_s=200, mem_gb=2, unwind=8)
+    for vi in range(len(d.split("|"))):
+        H(f"c20_q_roundtrip_{e.lower()}_v{vi}", "C20", f"c20::roundtrip::<c20::{e}, {vi}, _>",
+          f"{{{d}}}: variant #{vi} ({d.split('|')[vi]}) reports its mnemonic; its response text is character data and "
+          f"selects the same variant (from_mnemonic and through the real lexer + TryFrom)", "one variant per instance; "
+          "all variants of the family are instantiated", cap_s=300, mem_gb=3, unwind=16, also=["C09"])
+
+
 PROPS = {
     "C07": {
         "bounds": {"quick": "fallback kernel: every non-NaN float; fast path: sign + <= 4 digits; non-decimal: any u64; "
@@ -279,6 +297,21 @@ PROPS["C17"] = {
                   "cases are points of that space.",
     "level_note": "Trusted: Kani/CBMC/CaDiCaL (incl. CBMC's IEEE-754 comparison semantics); the keyword table in "
                   "checks/c17.rs.",
+}
+
+PROPS["C20"] = {
+    "bounds": {"quick": "four enum definitions (2-6 variants; unit and single-field variants; plain, suffixed and "
+                        "suffix-sibling mnemonics incl. CHANnel1/2/10); character data <= 6 bytes",
+               "thorough": "same definitions; character data <= 12 bytes"},
+    "outside": "enum definitions other than the four compiled into the harness crate (the derive macro runs at compile "
+               "time; its input space is not a solver domain); suffixes spelled with a leading zero (see C03)",
+    "assumptions": ["variants carry pairwise non-matching mnemonics (true of the four definitions)"],
+    "level_text": "Bounded model checking of the code the derive macro actually emitted for a fixed family of definitions: "
+                  "the character datum (and its length) is symbolic, the oracle is 'first variant whose mnemonic matches "
+                  "the C03 reference matcher'; the response round trip is decided for every variant through the real "
+                  "formatter, the real lexer and the derived TryFrom.",
+    "level_note": "Trusted: Kani/CBMC/CaDiCaL; reference matcher (oracles/mnemonic.rs); the family of definitions is the "
+                  "bound on 'programs'.",
 }
 
 # properties whose check is still being built (kept current as the work proceeds)
